@@ -332,6 +332,7 @@ Loop:
 		case ' ':
 		case '\n':
 		case '\t':
+		case '\r':
 			continue
 		case '[':
 			return true
@@ -792,7 +793,7 @@ func (p Patch) ApplyIndent(doc []byte, indent string) ([]byte, error) {
 	}
 
 	var pd container
-	if doc[0] == '[' {
+	if isArray(doc) {
 		pd = &partialArray{}
 	} else {
 		pd = &partialDoc{}
